@@ -36,6 +36,8 @@ type C15Case struct {
 	// ReqOwn (stage ready-block-requested): request the block whose header is in Bytes instead of
 	// an unrelated hash, so that the input reaches the block handler as the requested block
 	ReqOwn bool
+	// AltHeaders: the node has an alternate headers handler installed (the message is teed to it)
+	AltHeaders bool
 	// KeepOpen: do not close the peer side after sending (the node must cope either way)
 }
 
@@ -138,6 +140,12 @@ func c15Cases(seed int64, batch, perBatch int) []C15Case {
 			tail := make([]byte, rng.Intn(100))
 			rng.Read(tail)
 			out = append(out, c15(fmt.Sprintf("classic-declared-length/%s/%d", cmd, l), stage(), append(FrameHeader(Magic, cmd, l, [4]byte{}), tail...)))
+		case k < 13 && rng.Intn(2) == 0: // a headers message cut in the middle, then the peer hangs up
+			cg := &chainGen{prev: *MainGenesisHash(), ts: 1231006505, rng: rng}
+			f := Frame("headers", HeadersPayload(cg.next(1+rng.Intn(4))))
+			cut := 25 + rng.Intn(len(f)-25)
+			st := []string{"during-verification", "ready"}[rng.Intn(2)]
+			out = append(out, C15Case{Class: "headers-cut-mid-message", Stage: st, Bytes: f[:cut], AltHeaders: rng.Intn(3) > 0})
 		case k < 13: // headers with hostile bits / timestamps (ready stage reaches ProcessHeader)
 			exp := uint32(rng.Intn(256))
 			mant := mantissasC15[rng.Intn(len(mantissasC15))]
@@ -254,6 +262,11 @@ func c15Cases(seed int64, batch, perBatch int) []C15Case {
 			}
 		}
 	}
+	for i := range out {
+		if rng.Intn(3) == 0 {
+			out[i].AltHeaders = true
+		}
+	}
 	return out
 }
 
@@ -309,7 +322,7 @@ func newC15Repo() *headers.Repository {
 // runC15Case executes one case in this process. Verdict strings: "ok", "inconclusive:<why>", "violation:<sig>:<detail>".
 func runC15Case(ctx context.Context, c C15Case, canary *Session) string {
 	repo := newC15Repo()
-	s, err := StartSession(ctx, SessionOpts{WithTx: true, Repo: repo})
+	s, err := StartSession(ctx, SessionOpts{WithTx: true, Repo: repo, HeaderHandler: c.AltHeaders})
 	if err != nil {
 		return "inconclusive:session-start"
 	}
@@ -458,7 +471,11 @@ func C15Worker(seed int64, batch, perBatch int, journal string, only int) int {
 		if only <= -2 && i < -only-2 {
 			continue
 		}
-		fmt.Fprintf(f, "START %d %s %s %s\n", i, c.Stage, c.Class, hex.EncodeToString(head(c.Bytes, 400)))
+		stageStr := c.Stage
+		if c.AltHeaders {
+			stageStr += "+alt-headers-handler"
+		}
+		fmt.Fprintf(f, "START %d %s %s %s\n", i, stageStr, c.Class, hex.EncodeToString(head(c.Bytes, 400)))
 		f.Sync()
 		v := runC15Case(ctx, c, canary)
 		fmt.Fprintf(f, "END %d %s\n", i, v)
@@ -594,7 +611,7 @@ func RunC15(tier string, seed int64, race bool) int {
 	if race {
 		run.Phase = "race"
 	}
-	run.Rule = "supervised worker processes (memory budget 4 GiB via ulimit -v) each host a canary connection plus one fresh real BitcoinNode per case (difficulty enabled, real tx manager and peer book); each case delivers one hostile byte string at one of three stages (before handshake, during verification, ready), then the peer hangs up. Oracle: worker alive, canary still answers ping, repository unchanged, Run returns. Every case is journalled (fsync) before it runs, a dead worker is attributed to the last journalled case and that case is re-run alone. distinct = (input class root, stage)"
+	run.Rule = "supervised worker processes (memory budget 4 GiB via ulimit -v) each host a canary connection plus one fresh real BitcoinNode per case (difficulty enabled, real tx manager and peer book); each case delivers one hostile byte string at one of four stages (before handshake, during verification, ready, ready with a block request outstanding), a third of them with an alternate headers handler installed on the node, then the peer hangs up. Oracle: worker alive, canary still answers ping, repository unchanged, Run returns. Every case is journalled (fsync) before it runs, a dead worker is attributed to the last journalled case and that case is re-run alone. distinct = (input class root, stage)"
 	run.Assumptions = []string{"a process that needs more than 4 GiB of address space for one peer-declared size is counted as aborted (ulimit -v 4194304)",
 		"a Run that has not returned 30 s after the peer closed is classified by goroutine state; repeated version/verack are hostile input here, not conformant traffic"}
 	self, _ := os.Executable()
